@@ -215,6 +215,7 @@ def run(rep, facts, tier):
         rep.check(ok, 'R15.3', '%s/by-id' % g, 'looks the parameter up by id in the map', '%s does not look its parameter up by id' % g, x.where())
 
     rule_15_7(rep, facts['default'])
+    rule_15_9(rep, facts['default'])
     for cfg in CONFIGS:
         if cfg in facts:
             rule_15_8(rep, facts[cfg], cfg)
@@ -422,3 +423,100 @@ def rule_15_8(rep, fx, cfg):
                       'and what is written does not parse back' % (b.key, term_str(v)[:100]), b.where(bb))
     if cfg == 'default':
         rep.floor('R15.8', n, 1, 'narrow length fields written by hand-written serializers')
+
+
+LOC = 'structure::locator::Locator'
+REPR = 'structure::locator::repr::Locator'
+
+
+def rule_15_9(rep, fx):
+    """Every locator parameter (unicast / multicast / metatraffic lists of participants and endpoints) goes through the pair Locator <-> repr::Locator. The variant is decided
+    by the wire `kind` alone, in both directions, by tables that are inverse to each other."""
+    rep.rule('R15.9', 'locator wire form: From<repr::Locator> for Locator decides the variant from repr.kind only (one switch; each arm builds its variant directly as an aggregate, '
+                      'no further value-dependent decision or conversion call producing the result), From<Locator> for repr::Locator assigns each variant its kind constant, and the two '
+                      'tables are inverse: INVALID <-> Invalid, RESERVED <-> Reserved, UDP_V4 <-> UdpV4, UDP_V6 <-> UdpV6, anything else <-> Other{kind}; the UDP payloads are built from '
+                      'address / port of the same repr')
+    kinds = {}
+    for k, v in fx.consts.items():
+        if k.startswith('structure::locator::kind::') and v.get('val') is not None:
+            kinds[int(v['val'])] = k.rsplit('::', 1)[-1]
+    want = {'INVALID': 'Invalid', 'RESERVED': 'Reserved', 'UDP_V4': 'UdpV4', 'UDP_V6': 'UdpV6'}
+    fr = fx.find('<%s as std::convert::From<%s>>::from' % (LOC, REPR))
+    rep.analysed(fr)
+    og = Origins(fr, summaries=False)
+    sw = [bb for bb in sorted(fr.live_blocks()) if fr.blocks[bb]['term']['t'] == 'switch']
+    table = {}
+    ok_shape = False
+    extra = []
+    if sw:
+        t = fr.blocks[sw[0]]['term']
+        x = og.of_operand(t['x'], sw[0], 'term')
+        ok_shape = x == ('field', 'kind', ('param', 1))
+        P = Pos(fr)
+        arms = [(a[0], a[1]) for a in t['arms']] + [('otherwise', t['otherwise'])]
+        for val, tg in arms:
+            if isinstance(val, int) and val >= 2 ** 31:
+                val -= 2 ** 32
+            reach = P.reach((tg, 0), include_start=True)
+            blocks = set(bb for bb, _k in reach)
+            vs = set()
+            for bb in blocks:
+                for si, st in enumerate(fr.blocks[bb]['st']):
+                    if st['s'] == 'assign' and st['lhs']['l'] == 0 and not st['lhs'].get('p'):
+                        vs.add(st['rv'].get('variant') if st['rv']['r'] == 'agg' else 'non-aggregate:%s' % st['rv']['r'])
+                tt = fr.blocks[bb]['term']
+                if tt['t'] == 'call' and tt.get('dest', {}).get('l') == 0 and not tt['dest'].get('p'):
+                    vs.add('call:%s' % callee_res(tt).rsplit('::', 1)[-1])
+                if tt['t'] == 'switch' and bb != sw[0]:
+                    extra.append(bb)
+            table[kinds.get(val, val) if val != 'otherwise' else 'otherwise'] = sorted(vs, key=str)
+    exp = {k: [v] for k, v in want.items()}
+    exp['otherwise'] = ['Other']
+    okf = ok_shape and table == exp and not extra
+    rep.check(okf, 'R15.9', 'Locator::from(repr)/kind-table', 'variant decided by repr.kind only: %s' % table,
+              'From<repr::Locator> for Locator does not map the wire kind to the variant one-to-one (table %s, further decisions in blocks %s): a locator can come back as a different '
+              'variant than the one that was written, depending on its value' % (table, extra), fr.where())
+    # payload provenance of the two UDP variants
+    okp = True
+    for bb, si, st in fr.statements():
+        if st['s'] == 'assign' and st['lhs']['l'] == 0 and st['rv']['r'] == 'agg' and st['rv'].get('variant') in ('UdpV4', 'UdpV6'):
+            v = og.of_operand(st['rv']['ops'][0], bb, si)
+            okp = okp and term_has(v, lambda x: x[0] == 'call' and x[1].endswith(('SocketAddrV4::new', 'SocketAddrV6::new'))) and \
+                term_has(v, lambda x: x == ('field', 'port', ('param', 1))) and term_has(v, lambda x: x[0] == 'field' and x[1] == 'address' and x[2] == ('param', 1))
+    rep.check(okp, 'R15.9', 'Locator::from(repr)/udp-payload', 'SocketAddrV4/V6::new(address of repr, port of repr)', 'the UDP locator read back is not built from address and port of the same wire locator', fr.where())
+    # the other direction
+    to = [b for b in fx.bodies if b.name == 'from' and strip_generics(b.impl_self or '') == REPR and b.kind in ('fn', 'assoc_fn')]
+    if len(to) != 1:
+        raise CheckBroken('From<Locator> for repr::Locator not found (%d)' % len(to))
+    to = to[0]
+    rep.analysed(to)
+    ogt = Origins(to, summaries=False)
+    sw2 = [bb for bb in sorted(to.live_blocks()) if to.blocks[bb]['term']['t'] == 'switch' and ogt.of_operand(to.blocks[bb]['term']['x'], bb, 'term')[0] == 'discr']
+    t2 = {}
+    if sw2:
+        tt = to.blocks[sw2[0]]['term']
+        adt = fx.adt(LOC)
+        names = [v['name'] for v in adt['variants']]
+        P2 = Pos(to)
+        for val, tg in [(a[0], a[1]) for a in tt['arms']] + [('otherwise', tt['otherwise'])]:
+            vname = fx.variant_name(LOC, val) if val != 'otherwise' else None
+            if vname is None:
+                rest = [n for n in names if n not in [fx.variant_name(LOC, a[0]) for a in tt['arms']]]
+                vname = rest[0] if len(rest) == 1 else 'otherwise'
+            ks = set()
+            for bb, _k in P2.reach((tg, 0), include_start=True):
+                for st in to.blocks[bb]['st']:
+                    if st['s'] != 'assign':
+                        continue
+                    ops = [st['rv']['x']] if st['rv']['r'] == 'use' else (st['rv'].get('ops') or [] if st['rv']['r'] == 'agg' else [])
+                    for o in ops:
+                        if o.get('o') == 'const':
+                            nm = str(o['k'].get('def') or o['k'].get('path') or '')
+                            for kn in want:
+                                if nm.endswith('kind::' + kn):
+                                    ks.add(kn)
+            t2[vname] = sorted(ks)
+    exp2 = {v: [k] for k, v in want.items()}
+    ok2 = all(t2.get(v) == [k] for k, v in want.items()) and t2.get('Other', []) == []
+    rep.check(ok2, 'R15.9', 'repr::Locator::from(Locator)/kind-table', 'variant -> kind constant: %s' % t2,
+              'From<Locator> for repr::Locator does not give each variant its own kind constant (table %s, expected %s and Other -> its own kind field)' % (t2, exp2), to.where())
